@@ -116,3 +116,19 @@ def c03(run):
         "the implementation's remainder map is tied to its syndrome table by sampled affinity / superposition events (not exhaustively)"],
         extra_cov={"proof": "distinct TLC states = generated states over all syndromes of weight <= 3 (left) and <= 2 (right)"})
     return 1 if impl_viol else rc
+
+
+BLOOM_ASSUME = ["NewFilter's sizing formula (natural logarithm) is only bounded by the wire limits, not recomputed",
+                "the filter's bit array is observed through MsgFilterLoad() after every call (delta of set / cleared bits, popcount, full bytes for filters <= 64 bytes)",
+                "for an empty bit array only totality is demanded; the membership answer is unconstrained"]
+
+
+# --------------------------------------------------------------------------- C09
+@prop("C09", "Trace_Bloom")
+def c09(run):
+    run.build()
+    run.mc("MC_Bloom")
+    cases = run.gen("Gen_Bloom", env={"GEN_DEPTH": "4" if run.tier == "thorough" else "3"})
+    trace, _ = run.exec("C09", cases=cases)
+    run.validate("Trace_Bloom", trace)
+    return finish(run, assumptions=BLOOM_ASSUME)
